@@ -50,3 +50,22 @@ contract('ikesacontroller.IkeSaController._get_ike_sa_by_spi', params={'spi': By
 spec('table_distinct', {'l': List(S)}, Bool,
      'forall(lambda i, j: implies(0 <= i and i < j and j < len(l), l[i] != l[j]))')
 
+
+# ---- kernel expiry routing (C16): the IKE_SA that owns the expiring SPI, as inbound or outbound SPI of a CHILD_SA ------
+spec('owns_spi', {'s': S, 'spi': Bytes}, Bool,
+     'exists(lambda j: 0 <= j and j < len(s.child_sas) and (at(s.child_sas, j).inbound_spi == spi '
+     'or at(s.child_sas, j).outbound_spi == spi))')
+contract('ikesacontroller.IkeSaController._get_ike_sa_by_child_sa_spi', params={'spi': Bytes}, returns=Opt(S),
+         props=['C16'], requires=['live_ref(self)'], modifies=[], raises={},
+         loops={0: loop(index='_a', invariant=['0 <= _a <= len(self.ike_sas)',
+                                               'forall(lambda k: implies(0 <= k and k < _a, '
+                                               'not owns_spi(at(self.ike_sas, k), spi)))']),
+                1: loop(index='_b', invariant=['0 <= _b <= len(ike_sa.child_sas)',
+                                               'forall(lambda j: implies(0 <= j and j < _b, '
+                                               'at(ike_sa.child_sas, j).inbound_spi != spi '
+                                               'and at(ike_sa.child_sas, j).outbound_spi != spi))'])},
+         ensures={'C16:owner': 'implies(result is not None, owns_spi(result, spi) and exists(lambda k: 0 <= k '
+                               'and k < len(self.ike_sas) and at(self.ike_sas, k) == result '
+                               'and forall(lambda i: implies(0 <= i and i < k, not owns_spi(at(self.ike_sas, i), spi)))))',
+                  'C16:nobody': 'implies(result is None, forall(lambda k: implies(0 <= k and k < len(self.ike_sas), '
+                                'not owns_spi(at(self.ike_sas, k), spi))))'})
